@@ -391,6 +391,8 @@ class ClassObject(Object, Callable):
     @cached_property
     def _attrs(self):
         # type: () -> Attributes
+        # an inheritance cycle ends here: re-entrant lookups see an empty table
+        self.__dict__['_attrs'] = {}
         attrs = {}
         for b in reversed(self.bases):
             attrs.update(b._attrs)
@@ -433,6 +435,8 @@ class InstanceValue(Object):
         # type: () -> Attributes
         """Attributes assigned through an instance (self.x = ...) in the
         class or in any of its bases; never class-level attributes."""
+        # an inheritance cycle ends here: re-entrant lookups see an empty table
+        self.__dict__['_instance_attrs'] = {}
         attrs = {}  # type: Attributes
         for b in reversed(self.cls.bases):
             o = b.call(self.ctx)
